@@ -64,6 +64,8 @@ Definition pOp : P op :=
   | 19 => do f <- pN;; do e <- pEaddr;; do r <- pFaddr;; pret (HasLocalBind e f r)
   | 20 => do f <- pN;; do fn <- pN;; do e <- pEaddr;; pret (ReadData e f fn)
   | 21 => do p <- pN;; do d <- pOptN;; pret (Resolve p d)
+  | 23 => do f <- pN;; do e <- pEaddr;; do r <- pFaddr;; pret (LocalUnsubscribe e f r)
+  | 24 => do f <- pN;; do e <- pEaddr;; do r <- pFaddr;; pret (LocalUnbind e f r)
   | _ => fun _ => None
   end.
 
